@@ -468,6 +468,27 @@ def main(ck):
     shutil.rmtree(root, ignore_errors=True)
 
 
+
+def replay(ck, body):
+  """./verif <ID> --replay <violation file>: run exactly the recorded case through the same test function."""
+  from vf import mj
+  rec = body.get('case') or {}
+  if 'case' not in rec or 'check' not in rec:
+    raise NotImplementedError('replay file carries no generated case (bucket %s)' % body.get('bucket'))
+
+  def run_one(test, strategy, max_examples, name='main', **kw):
+    if name != rec['check']:
+      return True
+    try:
+      test(rec['case'])
+      return True
+    except (Violation, AssertionError, mj.MjError) as e:
+      ck.violation('%s: %s' % (type(e).__name__, e), rec, bucket=getattr(e, 'bucket', None) or name)
+      return False
+  ck.run_hypothesis = run_one
+  main(ck)
+
+
 LEVEL = 'exploration'
 TECHNIQUE = ('model-based property testing: Hypothesis-generated operation histories interpreted against the real mjVFS '
              '(public C API + resource API) and a Python dict reference model')
